@@ -281,10 +281,6 @@ func checkPremises(c *Ctx) {
 					}
 				}
 			}
-			if !parses {
-				continue
-			}
-			found = true
 			nz, ne := false, false
 			for _, a := range ip.Atoms {
 				nn := a.Norm()
@@ -296,6 +292,36 @@ func checkPremises(c *Ctx) {
 					ne = true
 				}
 			}
+			// a read that succeeded with a count not known to be non-zero ends the call with a fatal error: a handle that
+			// delivers empty reads is broken, and calling that 'a packet to skip' makes the engines poll it until the timeout
+			// and report an empty path as a success
+			if ne && !nz && len(ip.Results) > 0 {
+				r := ip.Results[len(ip.Results)-1]
+				retry := r.Has(func(x *core.Term) bool {
+					if x.Op != "alloc" || x.Typ == nil {
+						return false
+					}
+					pt, ok := x.Typ.Underlying().(*types.Pointer)
+					if !ok {
+						return false
+					}
+					tg := wrapperTag(pt.Elem())
+					return tg == "NoPkt" || tg == "BadPkt"
+				})
+				if r.IsConst("nil") || retry {
+					pos := f.Pos()
+					if ip.Ret != nil {
+						pos = ip.Ret.Pos()
+					}
+					R.FailPath("R09.1", "packets.ReadAndParse#premise[zero-read-is-fatal]", pos, core.FuncName(f), "a read that returned no error and a count not established to be non-zero ends with "+r.String()+": the zero-length read is no longer a fatal error but a success or a packet to skip, so a handle that only delivers empty reads is polled until the timeout and the run reports an empty path instead of the failure", ip.Desc)
+				} else {
+					R.OK("R09.1", "packets.ReadAndParse#premise[zero-read-is-fatal]", f.Pos(), core.FuncName(f), "a possibly empty read ends with a fatal error")
+				}
+			}
+			if !parses {
+				continue
+			}
+			found = true
 			if !nz || !ne {
 				okAll = false
 			}
